@@ -203,7 +203,7 @@ func processWorkload(e *env) {
 	var exited atomic.Bool
 	e.spawn(8, "process", func(w *worker) {
 		for e.running() {
-			switch w.rng.Weighted([]int{14, 14, 8, 12, 12, 8, 6, 10, 6, 2, 4}) {
+			switch w.rng.Weighted([]int{14, 14, 8, 12, 12, 8, 6, 10, 6, 2, 4, 5}) {
 			case 0:
 				w.do("Process.Fork", func() {
 					c := root.Fork()
@@ -301,6 +301,44 @@ func processWorkload(e *env) {
 				<-forked
 				w.do("Process.Exit(grandchild)", func() { first.Exit(nil) })
 				<-joined
+				w.do("Process.Exit", func() { m.Exit(nil) })
+			case 11:
+				// several goroutines parked in Join on ONE process while its children are still
+				// running; then the children exit: every joiner must return (the last child's exit
+				// has to wake them all)
+				var m *process.Process
+				w.do("Process.Fork", func() { m = root.Fork() })
+				k := w.rng.Range(1, 3)
+				var gs []*process.Process
+				for i := 0; i < k; i++ {
+					w.do("Process.Fork(grandchild)", func() { gs = append(gs, m.Fork()) })
+				}
+				j := w.rng.Range(2, 4)
+				var note atomic.Pointer[string]
+				var entered atomic.Int64
+				joined := make(chan struct{}, j)
+				for i := 0; i < j; i++ {
+					e.background(1, "joiner", func(w2 *worker) {
+						defer func() { joined <- struct{}{} }()
+						w2.doNote("Process.Join(one of several joiners)", &note, func() {
+							entered.Add(1)
+							m.Join()
+						})
+					})
+				}
+				// let the joiners park: all have entered, then the scheduler is invited a few times
+				for spin := 0; entered.Load() < int64(j) && spin < 10000; spin++ {
+					goruntime.Gosched()
+				}
+				time.Sleep(time.Duration(w.rng.Range(100, 600)) * time.Microsecond)
+				for _, g := range gs {
+					w.do("Process.Exit(grandchild)", func() { g.Exit(nil) })
+				}
+				s := fmt.Sprintf("%d joiners were started on one process with %d children outstanding; every child has terminated since", j, k)
+				note.Store(&s)
+				for i := 0; i < j; i++ {
+					<-joined
+				}
 				w.do("Process.Exit", func() { m.Exit(nil) })
 			case 9:
 				if e.frac() > 0.7 && exited.CompareAndSwap(false, true) {
